@@ -12,6 +12,7 @@ CONSTANTS
   PoolSize = 0
   ClockAnomalies = TRUE
   CacheLoss = FALSE
+  LiveRounds = FALSE
   Stops = FALSE
 INVARIANTS LockAppendOnly PubAppendOnly PublishedWasLocked PubNotAheadOfLock AckPublished AckInLock SameAck
   StagingDiscardSafe Recoverable LoadedIsServable PubBacked ImmutableStable LeafTimes LoserStops NoForkInLock LeafCount PoolBound StoppedIsQuiet
